@@ -188,12 +188,24 @@ def required_counters(tier):
 _h = {}
 
 
-def harness():
+def harness(logsock_off=False):
+    """two servers: the default one, and one whose operator has switched the logging of socket errors
+    off (what is logged must not change what is sent)"""
     from vf.sync import SyncHarness
 
-    if "h" not in _h:
-        _h["h"] = SyncHarness(clear_untrusted_proxy_headers=False)
-    return _h["h"]
+    k = "h-nolog" if logsock_off else "h"
+    if k not in _h:
+        kw = {"log_socket_errors": False} if logsock_off else {}
+        _h[k] = SyncHarness(clear_untrusted_proxy_headers=False, **kw)
+    return _h[k]
+
+
+def logsock_off_for(case):
+    """every third case runs on the server without socket-error logging (a pure function of the case)"""
+    import zlib
+
+    basis = repr(case.get("cell") or case.get("pipeline"))
+    return zlib.crc32(basis.encode()) % 3 == 0
 
 
 def header_values(r, name):
@@ -207,7 +219,9 @@ def judge_pipeline(acc, reqs, progs, send, lazy, case):
     from vf import apps
     from vf.ref import response as rs
 
-    h = harness()
+    h = harness(logsock_off_for(case))
+    if logsock_off_for(case):
+        acc.count("server:log_socket_errors-off")
     log = apps.Log()
     app = apps.make_app(progs, log)
     data = b"".join(r[3] for r in reqs)
@@ -483,7 +497,7 @@ def explain(case):
     print("   REQUEST", req)
     print("   PROGRAM", prog)
     print("   INTENDED", apps.intended(prog, case["cell"][2]))
-    h = harness()
+    h = harness(logsock_off_for(case))
     log = apps.Log()
     res = h.run([req + b"GET /probe HTTP/1.1\r\nHost: h\r\n\r\n"], apps.make_app([prog, PROBE], log),
                 send_pattern=SEND_PATTERNS[case["cell"][8]], lazy=case.get("lazy", False))
